@@ -63,7 +63,17 @@ var uuidPool = []string{
 	"c0ffee00-c0ff-4e00-8c0f-fee000000000", "0f0f0f0f-0f0f-4f0f-8f0f-0f0f0f0f0f0f",
 }
 
-var badIds = []V{AStr("not-a-uuid"), AStr("1234"), AStr("zzzzzzzz-zzzz-zzzz-zzzz-zzzzzzzzzzzz"), ANil(), ABool(true), AArr()}
+// the other textual forms uuid.FromString accepts: they are valid ids of other lengths
+var altUuidPool = []string{
+	"6ba7b8109dad11d180b400c04fd430c8", "{6ba7b810-9dad-11d1-80b4-00c04fd430c9}",
+	"urn:uuid:6ba7b810-9dad-11d1-80b4-00c04fd430ca", "6BA7B810-9DAD-11D1-80B4-00C04FD430CB",
+	"{6ba7b8109dad11d180b400c04fd430cc}", "urn:uuid:6ba7b8109dad11d180b400c04fd430cd",
+	"00000000000040008000000000000001",
+}
+
+var badIds = []V{AStr("not-a-uuid"), AStr("1234"), AStr("zzzzzzzz-zzzz-zzzz-zzzz-zzzzzzzzzzzz"), ANil(), ABool(true), AArr(),
+	AStr("{00000000-0000-4000-8000-000000000001"), AStr("urn:uuix:00000000-0000-4000-8000-000000000001"), AStr("00000000-0000-4000-8000-00000000000g"),
+	AStr("00000000+0000-4000-8000-000000000001"), AStr("0000000000004000800000000000001")}
 
 var strPool = []string{"", "a", "ab", "abc", "b", "ba", "\x00", "a\x00", "a\x00b", "\xff", "a\xff", "\xff\x00", "é", "hello world", "Hello", "z"}
 
@@ -98,6 +108,7 @@ func NewGen(seed int64, p *Profile) *Gen {
 	}
 	n := p.MaxDocs
 	pool := append([]string{}, uuidPool...)
+	pool = append(pool, altUuidPool...)
 	for i := 0; len(pool) < n; i++ {
 		pool = append(pool, bulkId(i+1))
 	}
